@@ -27,9 +27,16 @@ def truth_of(vals, neg):
     return (vals != [0]) if vals is not None else (0 in (neg or []))
 
 
+def alias_name(prog, fn):
+    from props import anchors
+    sv = anchors.sfl_validation(prog)
+    return '@sfl_validation' if sv is not None and fn.name == sv.name else fn.name
+
+
 def run(prog, rep, tier='quick', config='default'):
-    g = prog.fn(GD)
-    t = prog.fn(TD)
+    from props import anchors
+    g = anchors.sfl_validation(prog) or prog.fn(GD)
+    t = anchors.delta_list_driver(prog, anchors.ledger_step(prog)) or prog.fn(TD)
     if not rep.anchor('get_delta_superficial_loss_info', g) or not rep.anchor('txs_to_delta_list', t):
         return
     # ------------------------------------------------------------------ R3a / R3d
@@ -144,10 +151,44 @@ def run(prog, rep, tier='quick', config='default'):
     # the generated rows come from delta_for_tx's result
     for c in ins:
         o = mir.provenance(t, c.args[2], follow_all_call_args=True)
-        if o.has_call(r'delta_for_tx$'):
+        if o.has_call(re.escape(anchors.ledger_step(prog).name if anchors.ledger_step(prog) else 'delta_for_tx') + '$'):
             rep.ok('R3b', 'inserted-rows-come-from-the-ledger-step', where=c.where(), fn=t.name, detail='the inserted rows are the ones delta_for_tx returned', trivial=True)
         else:
             rep.violation('R3b', 'inserted-rows-come-from-the-ledger-step', where=c.where(), fn=t.name, detail='rows inserted into the working list do not come from delta_for_tx')
+
+    # ------------------------------------------------------------------ R3f: the over-applied marker comes from the window computation only
+    DSI = 'portfolio::model::txdelta::DeltaSflInfo'
+    n_set = 0
+    for fn in prog.product_fns():
+        if fn.crate != 'acb' or fn.d['span']['exp'].startswith('m:'):
+            continue    # derive(Clone/PartialEq/..) bodies copy the field verbatim
+        for b in fn.blocks.values():
+            for s in b['stmts']:
+                dfs = mir.place_fields(s['dst'])
+                if dfs and dfs[-1] == (DSI, 'potentially_over_applied'):
+                    rep.violation('R3f', '%s|flag-overwritten' % fn.name, where=fn.where(s), fn=fn.name,
+                                  detail='DeltaSflInfo.potentially_over_applied is overwritten after the superficial-loss computation: a sale whose denied loss is not '
+                                         'fully re-added to a cost base could lose its "[1] potentially over-applied" marker')
+                if s['r']['rv'] == 'agg' and s['r']['kind'].startswith('adt:' + DSI):
+                    for name, o in zip(s['r'].get('fields', []), s['r']['ops']):
+                        if name != 'potentially_over_applied':
+                            continue
+                        n_set += 1
+                        k = '%s|flag-source#%d' % (alias_name(prog, fn), n_set)
+                        if o['k'] == 'const':
+                            if o.get('v') == 'false' and fn is g:
+                                rep.ok('R3f', k, where=fn.where(s), fn=fn.name, detail='constant false on the user-specified branch (no automatic adjustment exists there)', trivial=True)
+                            else:
+                                rep.violation('R3f', k, where=fn.where(s), fn=fn.name, detail='the over-applied marker is a constant outside the user-specified branch')
+                            continue
+                        org = mir.provenance(fn, o, follow_all_call_args=False)
+                        if any(fl == 'fewer_remaining_shares_than_sfl_shares' for of, fl in org.fields) and not org.binops:
+                            rep.ok('R3f', k, where=fn.where(s), fn=fn.name, detail='marker = SflRatioResult.fewer_remaining_shares_than_sfl_shares, unmodified')
+                        else:
+                            rep.violation('R3f', k, where=fn.where(s), fn=fn.name,
+                                          detail='the over-applied marker does not come (unmodified) from the window computation')
+    if n_set == 0:
+        rep.violation('R3f', 'anchor-lost:flag-construction', detail='anchor lost: construction of DeltaSflInfo')
 
     # ------------------------------------------------------------------ R3e: gain = loss - denied amount
     L = ledger.Ledger(prog)
